@@ -102,7 +102,7 @@ class RdfBuilder:
         if k < 0.65:
             return r.choice([True, False])
         if k < 0.75:
-            return self.zone(datetime.datetime(r.choice([1970, 2012, 2024]), r.randint(1, 12), r.randint(1, 28), r.randint(0, 23),
+            return self.zone(datetime.datetime(r.choice([1970, 2012, 2024, 2024, 1, 7, 50, 79, 999, 9999]), r.randint(1, 12), r.randint(1, 28), r.randint(0, 23),
                                                r.randint(0, 59), r.randint(0, 59), r.choice([0, 0, 250000, 5000, 42])))
         if k < 0.9:
             if r.random() < 0.25:
@@ -158,7 +158,7 @@ class RdfBuilder:
                 attrs = []
                 if kind == "Activity":
                     if r.random() < 0.4:
-                        attrs.append(("prov:startTime", self.zone(datetime.datetime(2012, 1, 1, r.randint(0, 23)))))
+                        attrs.append(("prov:startTime", self.zone(datetime.datetime(r.choice([2012, 2012, 50, 7]), 1, 1, r.randint(0, 23)))))
                     if r.random() < 0.4:
                         attrs.append(("prov:endTime", self.zone(datetime.datetime(2013, 1, 1, r.randint(0, 23)))))
                 w.new_record(c, kind, ident, attrs + ex)
@@ -175,7 +175,7 @@ class RdfBuilder:
                             args.append((f, self.name()))
                         elif f in PROV_ATTRIBUTE_LITERALS:
                             if r.random() < 0.4:
-                                args.append((f, self.zone(datetime.datetime(2014, r.randint(1, 12), 1, r.randint(0, 23)))))
+                                args.append((f, self.zone(datetime.datetime(r.choice([2014, 2014, 79, 1]), r.randint(1, 12), 1, r.randint(0, 23)))))
                         elif r.random() < 0.4:
                             args.append((f, self.name()))
                 ex = self.extras(True)
